@@ -129,6 +129,19 @@ theorem rejected_or_data (ep : Endpoint) (pit : Bool) (ledger : String) (key : F
     simp only [renderPieces, Except.map, h']
     exact ⟨_, rfl, good_shape g pre post hpre⟩
 
+/-- **The key is client text too.**  A filter key arrives as a string (a JSON object key, the name of a v1 query parameter);
+`classifyKey` is all the query contexts do with it.  For every listing and EVERY key string — SQL in front of or behind a
+known key, a table-qualified column, a column of the schema that is no filter key — the leaf is rejected, or its SQL has in
+every context the token kinds of the rendering for the harmless twin: of the key string itself only the captured metadata key /
+asset name ever reaches the statement, inside a literal. -/
+theorem key_rejected_or_data (ep : Endpoint) (pit : Bool) (ledger : String) (key : String) (op : String) (v : JV)
+    (pre post : String) (hpre : Boundary pre) :
+    match renderPieces (leafPieces ep pit ledger.toList (classifyKey ep key) op v) with
+    | .error _ => True
+    | .ok sql => ∃ sql', renderPieces (leafPieces ep pit ledger.toList (harmlessKey (classifyKey ep key)) op (harmlessValue (classifyKey ep key) v)) = .ok sql' ∧
+        shape (lex (pre ++ sql ++ post)) = shape (lex (pre ++ sql' ++ post)) :=
+  rejected_or_data ep pit ledger (classifyKey ep key) op v pre post hpre
+
 /-- **Rejected or data, whole filter expressions** (`$and` / `$or` / `not` over leaves, as `query.Builder.Build` joins
 them): the `where` text is rejected, or has in every context the token kinds of the text for the harmless twin. -/
 theorem filter_rejected_or_data (ep : Endpoint) (pit : Bool) (ledger : String) (e : Expr)
@@ -179,5 +192,10 @@ example : renderFilter .transactions true "l0" (.set true [.leaf .reference "$ma
       .not (.leaf (.metadata "k'".toList) "$match" (.str "\\".toList))]) =
     .ok "(reference = 'a''; drop table x; --') and (not (transactions_metadata.metadata @> '{\"k''\":\"\\\\\"}'))" := by decide
 example : renderFilter .transactions false "l0" (.leaf .source "$match" (.str "a'b".toList)) = .error .invalid := by decide
+/-- hostile keys: text around a known key, a qualified column, a column that is no filter key — all unknown keys, all refused -/
+example : classifyKey .transactions "true or transactions.reference" = .unknown ∧ classifyKey .transactions "transactions.reference" = .unknown ∧
+    classifyKey .transactions "asset" = .unknown ∧ classifyKey .accounts "address or true" = .unknown ∧ classifyKey .logs "date; select 1" = .unknown := by decide
+example : renderFilter .transactions true "l0" (.leaf (classifyKey .transactions "true or transactions.reference") "$match" (.str "x".toList)) = .error .invalid := by
+  decide
 
 end C20
